@@ -16,12 +16,14 @@ import (
 // C09 — Source positions point at the source they describe.
 //
 // Streams (model = Lean driver, impl = the real code):
-//   newpos/addcol/addcolraw/after  bit-exact Pos arithmetic on boundary and random values (hook VerifC09PosAddCol)
-//   posend <vtree>                 regenerated Pos()/End() expression trees evaluated on every node of a real
-//                                  parsed tree = what the real methods returned
-//   local <ptree>                  assume/guarantee: the local ordering facts of `local_to_global` hold at every node
-//   specglobal <ptree>             the global statement executed by the Lean spec on the real tree
-//   speclinecol <src> offsets…     line:col of every position recomputed by the Lean spec from the source bytes
+//
+//	newpos/addcol/addcolraw/after  bit-exact Pos arithmetic on boundary and random values (hook VerifC09PosAddCol)
+//	posend <vtree>                 regenerated Pos()/End() expression trees evaluated on every node of a real
+//	                               parsed tree = what the real methods returned
+//	local <ptree>                  assume/guarantee: the local ordering facts of `local_to_global` hold at every node
+//	specglobal <ptree>             the global statement executed by the Lean spec on the real tree
+//	speclinecol <src> offsets…     line:col of every position recomputed by the Lean spec from the source bytes
+//
 // Search leg (independent of Lean, the property's own words): c09Judge.
 func init() { register("C09", c09) }
 
@@ -130,7 +132,7 @@ func c09PosTie(c *Ctx) {
 
 type c09M struct {
 	src  string
-	bq   int  // number of enclosing backquote command substitutions
+	bq   int // number of enclosing backquote command substitutions
 	memo map[[2]int]bool
 }
 
@@ -452,11 +454,12 @@ type c09Node struct {
 }
 
 type c09Tree struct {
-	src   string
-	lang  syntax.LangVariant
-	d     *Dumper
-	nodes []*c09Node // by id
-	hdoc  bool       // some redirect has a here-document body
+	src    string
+	lang   syntax.LangVariant
+	d      *Dumper
+	nodes  []*c09Node // by id
+	hdoc   bool       // some redirect has a here-document body
+	hdocOp bool       // some redirect is << or <<-
 }
 
 func c09Build(src string, lang syntax.LangVariant, f *syntax.File) (t *c09Tree, panicked string) {
@@ -480,6 +483,9 @@ func c09Build(src string, lang syntax.LangVariant, f *syntax.File) (t *c09Tree, 
 			cn.pos, cn.end = dn.Node.Pos(), dn.Node.End()
 			if r, ok := dn.Node.(*syntax.Redirect); ok && r.Hdoc != nil {
 				t.hdoc = true
+			}
+			if r, ok := dn.Node.(*syntax.Redirect); ok && (r.Op == syntax.Hdoc || r.Op == syntax.DashHdoc) {
+				t.hdocOp = true
 			}
 			if l, ok := dn.Node.(*syntax.Lit); ok && cn.slotName == "Parts" && dn.Parent.Parent != nil {
 				if r, ok := dn.Parent.Parent.Node.(*syntax.Redirect); ok && r.Hdoc == dn.Parent.Node && r.Hdoc.Parts[len(r.Hdoc.Parts)-1] == syntax.WordPart(l) {
@@ -587,6 +593,10 @@ func c09LineCol(src string, off int) (line, col int) {
 //	                   unless that here-document is the statement's last redirection and the statement
 //	                   is the last thing in every enclosing node
 //	K6 coproc-stmt-pos `coproc a b`: the inner Stmt starts at the second word
+//	K8 backslash-eof   a backslash as the last byte of the input: the column of the final position is one too large
+//	K9 comment-after-file  the trailing comment after `a | b <<E` with an empty here-document is attached to the
+//	                   inner statement, File.End() does not include it
+//	K7 zsh-dollar-hash zsh: `$#` (also `$%`, `$+`) at the end of the input becomes the literal "$" spanning two bytes
 type c09Violation struct {
 	kind string // "" = not in a known region
 	msg  string
@@ -611,11 +621,53 @@ func (t *c09Tree) judge(strict bool) (string, []string) {
 			first = fmt.Sprintf(format, args...)
 		}
 	}
+	// K4 at the source level: NUL bytes or an escaped newline glued between two non-blank bytes, i.e.
+	// inside a word, name, keyword or operator.  Positions that the parser derives from token lengths
+	// (name=, `$'`, time, …) are then short by the dropped bytes.
+	glued := false
+	isBlank := func(b byte) bool { return b == ' ' || b == '\t' || b == '\n' || b == '\r' }
+	for i := 1; i < n && !glued; i++ {
+		j := i
+		switch {
+		case src[i] == 0:
+			j = i + 1
+		case strings.HasPrefix(src[i:], "\\\n"):
+			j = i + 2
+		case strings.HasPrefix(src[i:], "\\\r\n"):
+			j = i + 3
+		default:
+			continue
+		}
+		for j < n && src[j] == 0 {
+			j++
+		}
+		glued = !isBlank(src[i-1]) && j < n && !isBlank(src[j])
+	}
+	reportG := func(region string, format string, args ...any) {
+		if region == "" && glued {
+			region = "K4"
+		}
+		report(region, format, args...)
+	}
 	// offsets that are the End() of a comment ending in backslash-newline (K3)
 	k3 := map[int]bool{}
 	for _, cn := range t.nodes {
 		if c, ok := cn.Node.(*syntax.Comment); ok && strings.HasSuffix(c.Text, "\\\n") {
 			k3[int(cn.end.Offset())] = true
+		}
+	}
+	// nodes of `coproc a b…` whose name word was folded into the call (K6)
+	k6 := map[int]bool{}
+	for _, cn := range t.nodes {
+		if cc, ok := cn.Node.(*syntax.CoprocClause); ok && cc.Name == nil && cc.Stmt != nil {
+			if call, ok := cc.Stmt.Cmd.(*syntax.CallExpr); ok && len(call.Args) > 0 && call.Args[0].Pos().Offset() < cc.Stmt.Position.Offset() {
+				for _, k := range cn.Kids {
+					k6[k.ID] = true
+					for _, k2 := range k.Kids {
+						k6[k2.ID] = true
+					}
+				}
+			}
 		}
 	}
 	// (1) Pos ≤ End, (2) all positions within the input, (3) line/col agree with the byte offset
@@ -641,12 +693,14 @@ func (t *c09Tree) judge(strict bool) (string, []string) {
 			switch {
 			case ls >= 3 && src[ls-3:ls] == "\\\r\n":
 				region = "K1"
+			case off == n && strings.HasSuffix(src, "\\"):
+				region = "K8"
 			case isEnd && k3[off]:
 				region = "K3"
-			case isEnd && off > 0 && off < n && src[off-1] == '\\' && (src[off] == '\n' || strings.HasPrefix(src[off:], "\r\n")):
+			case off > 0 && off < n && src[off-1] == '\\' && (src[off] == '\n' || strings.HasPrefix(src[off:], "\r\n")):
 				region = "K2"
 			}
-			report(region, "%s of %s is %d:%d at offset %d, but that byte is at line %d col %d", what, cn.Type, p.Line(), p.Col(), off, l, c)
+			reportG(region, "%s of %s is %d:%d at offset %d, but that byte is at line %d col %d", what, cn.Type, p.Line(), p.Col(), off, l, c)
 		}
 	}
 	for _, cn := range t.nodes {
@@ -662,7 +716,11 @@ func (t *c09Tree) judge(strict bool) (string, []string) {
 			continue
 		}
 		if cn.pos.After(cn.end) || cn.pos.Offset() > cn.end.Offset() {
-			report("", "%s: Pos() %d is after End() %d", cn.Type, cn.pos.Offset(), cn.end.Offset())
+			region := ""
+			if k6[cn.ID] {
+				region = "K6"
+			}
+			reportG(region, "%s: Pos() %d is after End() %d", cn.Type, cn.pos.Offset(), cn.end.Offset())
 		}
 		checkLC(cn, "Pos()", cn.pos, false)
 		checkLC(cn, "End()", cn.end, true)
@@ -694,7 +752,7 @@ func (t *c09Tree) judge(strict bool) (string, []string) {
 			}
 			if end < 0 {
 				got := src[off:min(n, off+12)]
-				report("", "%s.%s at offset %d should point at %q, but the source there is %q", cn.Type, a.field, off, a.want[0], got)
+				reportG("", "%s.%s at offset %d should point at %q, but the source there is %q", cn.Type, a.field, off, a.want[0], got)
 				continue
 			}
 			cn.toks = append(cn.toks, [2]int{off, end - off})
@@ -705,7 +763,7 @@ func (t *c09Tree) judge(strict bool) (string, []string) {
 					// backslash of an escape inside backquotes) and End() is start + len(token)
 					region = "K4"
 				}
-				report(region, "%s.End() is offset %d, but its closing %q at offset %d ends at %d (End must be one past the last byte of the node)", cn.Type, cn.end.Offset(), a.want[0], off, end)
+				reportG(region, "%s.End() is offset %d, but its closing %q at offset %d ends at %d (End must be one past the last byte of the node)", cn.Type, cn.end.Offset(), a.want[0], off, end)
 			}
 		}
 		// (5) literals
@@ -719,10 +777,19 @@ func (t *c09Tree) judge(strict bool) (string, []string) {
 			}
 			if p <= e && e <= n && !m.spans(p, e, want) {
 				region := ""
-				if e > 0 && e < n && src[e-1] == '\\' && (src[e] == '\n' || strings.HasPrefix(src[e:], "\r\n")) && m.spans(p, e-1, want) {
+				midEsc := func(o int) bool {
+					return o > 0 && o < n && src[o-1] == '\\' && (src[o] == '\n' || strings.HasPrefix(src[o:], "\r\n"))
+				}
+				switch {
+				case midEsc(e) && m.spans(p, e-1, want):
+					region = "K2"
+				case midEsc(p) && (m.spans(p-1, e, want) || midEsc(e) && m.spans(p-1, e-1, want)):
 					region = "K2"
 				}
-				report(region, "Lit %q spans offsets [%d,%d) = %q, which is not that text", want, p, e, src[p:e])
+				if t.lang == syntax.LangZsh && l.Value == "$" && e == p+2 && strings.IndexByte("#%+~=^", src[p+1]) >= 0 {
+					region = "K7"
+				}
+				reportG(region, "Lit %q spans offsets [%d,%d) = %q, which is not that text", want, p, e, src[p:e])
 			}
 		}
 		if q, ok := cn.Node.(*syntax.SglQuoted); ok {
@@ -731,7 +798,7 @@ func (t *c09Tree) judge(strict bool) (string, []string) {
 				p++
 			}
 			if p <= e && e <= n && !m.spans(p, e, q.Value) {
-				report("", "SglQuoted value %q lies at offsets [%d,%d) = %q, which is not that text", q.Value, p, e, src[p:e])
+				reportG("", "SglQuoted value %q lies at offsets [%d,%d) = %q, which is not that text", q.Value, p, e, src[p:e])
 			}
 		}
 	}
@@ -748,29 +815,31 @@ func (t *c09Tree) judge(strict bool) (string, []string) {
 		}
 		par := t.nodes[cn.Parent.ID]
 		if !c09InPTree(cn) {
-			// a comment attached to a statement: within the file and within the construct around the statement
-			anc := par
-			for anc.Parent != nil && (anc.Type == "Stmt" || anc.Type == "CaseItem" || anc.Type == "ArrayElem" || anc.Type == "BinaryCmd" || anc.Type == "CallExpr") {
-				anc = t.nodes[anc.Parent.ID]
-			}
+			// a comment attached to a statement, case item or array element is outside that node by
+			// definition; which node it is attached to is C05's subject.  It must lie within the File.
+			anc := t.nodes[0]
 			if cn.pos.Offset() < anc.pos.Offset() || cn.end.Offset() > anc.end.Offset() {
 				region := ""
-				if cn.pos.Offset() >= anc.pos.Offset() && t.hdoc {
-					region = "K5"
+				if len(k3) > 0 {
+					region = "K3"
+				} else if t.hdocOp && cn.end.Offset() > anc.end.Offset() {
+					region = "K9"
 				}
-				report(region, "Comment [%d,%d) attached to a %s lies outside the enclosing %s [%d,%d)", cn.pos.Offset(), cn.end.Offset(), par.Type, anc.Type, anc.pos.Offset(), anc.end.Offset())
+				report(region, "Comment [%d,%d) attached to a %s lies outside the File [%d,%d)", cn.pos.Offset(), cn.end.Offset(), par.Type, anc.pos.Offset(), anc.end.Offset())
 			}
 			continue
 		}
 		if cn.pos.Offset() < par.pos.Offset() || cn.end.Offset() > par.end.Offset() {
 			region := ""
 			switch {
+			case len(k3) > 0:
+				region = "K3" // the command goes on after the comment; the comment's holder does not
 			case cn.pos.Offset() >= par.pos.Offset() && hdocEnds[int(cn.end.Offset())]:
 				region = "K5"
-			case cn.end.Offset() <= par.end.Offset() && par.Type == "Stmt" && cn.Type == "CallExpr" && par.Parent != nil && par.Parent.Type == "CoprocClause":
+			case k6[cn.ID] || k6[par.ID]:
 				region = "K6"
 			}
-			report(region, "%s [%d,%d) in field %s lies outside its parent %s [%d,%d)", cn.Type, cn.pos.Offset(), cn.end.Offset(), cn.slotName, par.Type, par.pos.Offset(), par.end.Offset())
+			reportG(region, "%s [%d,%d) in field %s lies outside its parent %s [%d,%d)", cn.Type, cn.pos.Offset(), cn.end.Offset(), cn.slotName, par.Type, par.pos.Offset(), par.end.Offset())
 		}
 	}
 	for _, cn := range t.nodes {
@@ -781,11 +850,11 @@ func (t *c09Tree) judge(strict bool) (string, []string) {
 				continue
 			}
 			if prev != nil && prev.Slot == kn.Slot {
-				if prev.pos.Offset() >= kn.pos.Offset() {
-					report("", "%s.%s is not in source order: %s at %d is listed before %s at %d", cn.Type, kn.slotName, prev.Type, prev.pos.Offset(), kn.Type, kn.pos.Offset())
+				if prev.pos.Offset() > kn.pos.Offset() {
+					reportG("", "%s.%s is not in source order: %s at %d is listed before %s at %d", cn.Type, kn.slotName, prev.Type, prev.pos.Offset(), kn.Type, kn.pos.Offset())
 				}
 				if prev.end.Offset() > kn.pos.Offset() && !hdocEnds[int(prev.end.Offset())] {
-					report("", "%s.%s overlap: %s [%d,%d) and the next %s starts at %d", cn.Type, kn.slotName, prev.Type, prev.pos.Offset(), prev.end.Offset(), kn.Type, kn.pos.Offset())
+					reportG("", "%s.%s overlap: %s [%d,%d) and the next %s starts at %d", cn.Type, kn.slotName, prev.Type, prev.pos.Offset(), prev.end.Offset(), kn.Type, kn.pos.Offset())
 				}
 			}
 			prev = kn
@@ -1034,7 +1103,7 @@ func c09Sources(c *Ctx) (srcs []string, tags [][]string) {
 		case k < 3:
 			add(base, kind, "hostile=none")
 		default:
-			s, t := c09Hostile(c.R, base, false)
+			s, t := c09Hostile(c.R, base, os.Getenv("C09_INSIDE") != "" || c.R.Chance(15))
 			add(s, append([]string{kind}, t...)...)
 		}
 	}
@@ -1091,8 +1160,13 @@ func c09(c *Ctx) {
 			// assume/guarantee for local_to_global, and the Lean spec's own verdict on this tree
 			sb.Reset()
 			t.ptree(root, &sb)
-			c.Op("local "+sb.String(), "true")
-			c.Op("specglobal "+sb.String(), "true")
+			if t.hdoc {
+				c.Op("local "+sb.String(), "true")
+				c.Op("specglobal "+sb.String(), "true")
+			} else {
+				c.Op("localtight "+sb.String(), "true")
+				c.Op("specglobaltight "+sb.String(), "true")
+			}
 			if len(src) <= 4096 {
 				offs := t.offsets()
 				os_ := make([]string, len(offs))
